@@ -1,27 +1,53 @@
 import sys, os, time
+import multiprocessing as mp
 from .verify import Verifier
 
+_V = None
+_ARGS = None
+
+
+def work(ident):
+    try:
+        return work_(ident)
+    except Exception:
+        import traceback
+        return '%-70s paths=0 obl=0 {} 0.00s CRASH %s' % (ident, traceback.format_exc()[-400:].replace('\n', ' | '))
+
+
+def work_(ident):
+    c = [c for c in _V.all_contracts() if c.ident == ident][0]
+    r = _V.verify(c, timeout_ms=_ARGS.timeout)
+    lines = ['%-70s paths=%d obl=%d %s %.2fs %s' % (c.ident, r.paths, len(r.obligations), r.summary(), r.time, r.error or ''),
+             '   outcomes %s' % r.outcomes]
+    for o in r.obligations:
+        if o.verdict != 'proved' or _ARGS.v:
+            lines.append('    %s %s line %s path %s %.2fs %s' % (o.verdict, o.name, o.line, o.path_id, o.time, o.reason))
+            if o.model is not None and _ARGS.v:
+                lines.append('      model: ' + str(o.model)[:600])
+    return '\n'.join(lines)
+
+
 def main():
+    global _V, _ARGS
     import argparse
     ap = argparse.ArgumentParser()
     ap.add_argument('--repo', default='/repo')
     ap.add_argument('--verif', default=os.path.dirname(os.path.dirname(os.path.abspath(__file__))))
     ap.add_argument('--only', default=None)
     ap.add_argument('--timeout', type=int, default=10000)
+    ap.add_argument('-j', type=int, default=12)
     ap.add_argument('-v', action='store_true')
-    a = ap.parse_args()
-    V = Verifier(a.repo, a.verif)
-    for c in V.all_contracts():
-        if a.only and a.only not in c.ident:
-            continue
-        r = V.verify(c, timeout_ms=a.timeout)
-        print('%-70s paths=%d obl=%d %s %.2fs %s' % (c.ident, r.paths, len(r.obligations), r.summary(), r.time, r.error or ''))
-        print('   outcomes', r.outcomes)
-        for o in r.obligations:
-            if o.verdict != 'proved' or a.v:
-                print('   ', o.verdict, o.name, 'line', o.line, 'path', o.path_id, '%.2fs' % o.time, o.reason)
-                if o.model is not None:
-                    print('      model:', str(o.model)[:600])
+    _ARGS = ap.parse_args()
+    _V = Verifier(_ARGS.repo, _ARGS.verif)
+    idents = [c.ident for c in _V.all_contracts() if not _ARGS.only or _ARGS.only in c.ident]
+    if len(idents) <= 1 or _ARGS.j <= 1:
+        for i in idents:
+            print(work(i), flush=True)
+        return
+    with mp.Pool(min(_ARGS.j, len(idents))) as pool:
+        for out in pool.imap_unordered(work, idents, chunksize=1):
+            print(out, flush=True)
+
 
 if __name__ == '__main__':
     main()
